@@ -13,8 +13,16 @@ import lib, troute
 PROPS = "ImathVerif.Props.C16"
 PROPS_Z = "ImathVerif.Props.C16Z"
 PROPS_CULL = "ImathVerif.Props.C16Cull"
-PROPS_MORE = [PROPS_CULL]
+PROPS_LINK = "ImathVerif.Props.C16PlaneLink"   # imports Props.C15: planes (p, M) = Plane3::operator* (M) on planes (p)
+PROPS_MORE = [PROPS_CULL, PROPS_LINK]
+REQUIRED_LINK = [
+    "plane_eq_of_pos_multiple", "planeThroughIf_affine_det", "plane_link_affine", "planesM_persp_eq_mulM44",
+    "planesM_ortho_eq_mulM44", "triple_projective", "planeThroughIf_projective", "plane_link_projective", "witness_planes_persp",
+    "witness_planesM_rot", "witness_planeMul_0", "witness_planeMul_1", "witness_planeMul_2", "witness_planeMul_3",
+    "witness_planeMul_4", "witness_planeMul_5", "witness_planeLink",
+]
 REQUIRED_Z = [
+    "DepthToZExc_persp_ok", "DepthToZExc_ortho_ok", "DepthToZExc_persp_error", "DepthToZExc_ortho_error",
     "depthToZp_persp_real_body", "depthToZp_ortho_real_body", "depthToZ_persp_3_10", "depthToZ_ortho_3_10", "zdiffLong_eq",
     "zvalWrapped_inrange", "zvalWrapped_wrap", "zNormalized_inrange", "zNormalized_wrap", "zToDepth_persp_inrange",
     "zToDepth_ortho_inrange", "zToDepth_persp_wrap", "zToDepth_ortho_wrap", "ZToDepth_persp_5_0_10", "ZToDepth_persp_11_0_10",
@@ -34,7 +42,7 @@ REQUIRED_CULL = [
     "witness_box_persp", "witness_point_persp", "regionPersp_iff_ndc", "regionOrtho_iff_ndc", "corner_mem_regionPersp",
     "corner_mem_regionOrtho", "planesM_ortho_identity_far_lt_near", "planes_persp_eval_inverted",
 ]
-REQUIRED_MORE = {PROPS_CULL: REQUIRED_CULL}
+REQUIRED_MORE = {PROPS_CULL: REQUIRED_CULL, PROPS_LINK: REQUIRED_LINK}
 # every theorem except pure helper lemmas (deleting any of them must be noticed)
 REQUIRED = [
     "ctor_persp", "ctor_ortho", "set_persp", "set_ortho", "setOrthographic_persp", "setOrthographic_ortho", "degenerate_persp",
@@ -70,7 +78,8 @@ REQUIRED = [
 ]
 
 # theorem-name prefix -> group of the executable specification (c16_corr spec) used to look for a failing input
-GROUPS = [("witness_box", "frustumtest"), ("witness_sphere", "frustumtest"), ("witness_point", "frustumtest"), ("witness_planesM", "planesM|frustumtest"),
+GROUPS = [("witness_planeLink", "planesM"), ("witness_planeMul", "planesM"), ("plane_link", "planesM"), ("plane_eq", "planesM"), ("planeThroughIf", "planesM"),
+          ("triple_projective", "planesM"), ("witness_box", "frustumtest"), ("witness_sphere", "frustumtest"), ("witness_point", "frustumtest"), ("witness_planesM", "planesM|frustumtest"),
           ("assign", "ctor"), ("copyCtor", "ctor"), ("hitherYon", "ctor"), ("defaultCtor", "ctor"), ("eq_", "ctor"), ("stores", "frustumtest"),
           ("frustumTest_defaultCtor", "frustumtest|ctor"), ("V3mulM44", "projectionMatrix"), ("region", "projectionMatrix|planes"),
           ("corner_mem", "planes|projectionMatrix"), ("witness_projectionMatrix", "projectionMatrix"), ("witness_projectPointToScreen", "projectPointToScreen|depth"),
@@ -267,8 +276,10 @@ def run(chk):
                        "CAMERA MATRICES are affine (last column 0,0,0,1) with det3 > 0: rigid, uniform and non-uniform positive scale, shear.  EXPLICIT EXCLUSION "
                        "(property text: 'camera matrices (rigid and scaled)'): mirrored M (det3 < 0) — proved: all six normals of planes (p, M) then point "
                        "INTO the frustum and FrustumTest::isVisible (point) is false for every point (planesM_*_mirrored, isVisiblePoint_*_mirrored); the real code "
-                       "is measured to behave exactly so (obligation mirrored).  Projective M: not covered.  planes (p, M) is not identified with "
-                       "Plane3::operator* (M) (C15's extraction); it is characterised directly (same half-spaces as the mapped planes, unit normals)",
+                       "is measured to behave exactly so (obligation mirrored).  planes (p, M) = Plane3::operator* (M) (C15's regenerated Gen.Plane3.mulM44) applied to planes (p), "
+                       "plane by plane, normal and distance, for every affine M with det3 != 0 (Props/C16PlaneLink.lean; C15's Gen modules are regenerated and "
+                       "Plane3.mulM44 is TV'd in this run).  Projective M: only the pointwise proportionality plane_link_projective (w != 0 on the construction "
+                       "points; the side can differ by the sign of the product of those w)",
                        "ZToDepth / DepthToZ: proved mutually inverse on [zmin, zmax] over an ordered field for every range whose width fits a long, with a "
                        "cast that is exact on integers; all rounding is measured (round trip within +-1 plus an allowance).  The defect found by this check "
                        "(ZToDepth narrowed zmax - zmin to int: wrong depths for ranges >= 2^31 wide, e.g. a 32-bit z-buffer; key "
@@ -289,6 +300,8 @@ def run(chk):
     bins = troute.build_extractors(chk, [dict(name="sym_leaf", source="sym/sym_leaf.cpp"),
                                          dict(name="sym_c16m", source="sym/sym_c16m.cpp"),
                                          dict(name="sym_c16", source="sym/sym_c16.cpp"),
+                                         # C15's extractors: Gen.Plane3.mulM44 / setPoints (Props/C16PlaneLink.lean) come from the CURRENT tree in a C16-only run too
+                                         dict(name="sym_c15", source="sym/sym_c15.cpp"), dict(name="sym_c15b", source="sym/sym_c15b.cpp"),
                                          dict(name="c16_corr", source="corr/c16_corr.cpp")])
     leaf_idx = os.path.join(troute.GEN, "index_leaf.txt")
     m_idx = os.path.join(troute.GEN, "index_c16m.txt")
@@ -297,6 +310,11 @@ def run(chk):
         troute.regenerate(chk, bins["sym_leaf"], "leaf")
         idx_m, _ = troute.regenerate(chk, bins["sym_c16m"], "c16m", idx_deps=[leaf_idx])
         index, _ = troute.regenerate(chk, bins["sym_c16"], "c16", idx_deps=[leaf_idx, m_idx])
+        if bins.get("sym_c15") and bins.get("sym_c15b"):
+            c15_idx = os.path.join(troute.GEN, "index_c15.txt")
+            troute.regenerate(chk, bins["sym_c15"], "c15", idx_deps=[leaf_idx])
+            troute.regenerate(chk, bins["sym_c15b"], "c15b", idx_deps=[leaf_idx, c15_idx])
+            troute.tv(chk, bins["sym_c15b"], "c15b", 200 if chk.thorough else 64, idx_deps=[leaf_idx, c15_idx])   # Plane3::operator* (M44): tree = real, bitwise
         ntv = 600 if chk.thorough else 100
         # H-route correspondence of the transcript: bitwise at double against the REAL planes (p, M)
         troute.tv(chk, bins["sym_c16m"], "c16m", ntv, idx_deps=[leaf_idx])
